@@ -191,11 +191,11 @@ Section Tokens.
     intros ->. destruct (S1 eq_refl) as ((rest1 & B1 & O1 & _) & Len1 & D1 & G1).
     split; [exact D1|].
     assert (HR1 : k + 1 <= zlen rest1) by (destruct B1 as (_ & B1); lia).
-    destruct (put_spec p1 T rest1 l 0 B1 ltac:(lia) ltac:(lia)) as (rest2 & p2 & E2 & P2 & B2).
+    destruct (put_spec p1 T rest1 l 0 B1 ltac:(lia) ltac:(lia)) as (rest2 & p2 & E2 & P2 & B2 & Fp2).
     exists p2. split; [exact E2|].
     assert (L2 : zlen rest2 = zlen rest1 - zlen l).
     { destruct B1 as (_ & B1). destruct B2 as (_ & B2). subst p2. cbn in B2. rewrite zlen_app in B2. lia. }
-    split; [subst p2; exact F1|]. split; [subst p2; exact G1|]. split; [subst p2; exact D1|]. split; [subst p2; exact O1|].
+    split; [eapply frame_trans; [exact F1|exact Fp2]|]. split; [subst p2; exact G1|]. split; [subst p2; exact D1|]. split; [subst p2; exact O1|].
     split; [subst p2; cbn; lia|].
     destruct B2 as (B2a & B2b). split.
     - intros a b ->. exists (b ++ rest2). split; [split|split].
@@ -232,10 +232,12 @@ Section Tokens.
     2: { exists false, p1. split; [reflexivity|]. split; [exact F1|]. split; [discriminate|].
          intros R. apply C1. eapply room_mono; [exact R|lia]. }
     destruct (S1 eq_refl) as ((rest1 & B1 & O1 & _) & Len1 & D1 & G1).
-    destruct (put_spec p1 T rest1 (l ++ [0]) 0 B1 ltac:(lia)) as (rest2 & p2 & E2 & P2 & B2).
+    destruct (put_spec p1 T rest1 (l ++ [0]) 0 B1 ltac:(lia)) as (rest2 & p2 & E2 & P2 & B2 & Fp2).
     { destruct B1 as (_ & B1). rewrite zlen_app, zlen_cons, zlen_nil. lia. }
     rewrite E2. cbn [bind].
-    eexists true, _. split; [reflexivity|]. subst p2. split; [exact F1|]. split; [|reflexivity]. intros _.
+    eexists true, _. split; [reflexivity|].
+    split; [eapply frame_trans; [exact F1|]; eapply frame_trans; [exact Fp2|apply frame_set_offset]|].
+    subst p2. split; [|reflexivity]. intros _.
     split; [|split; [exact D1|split; [cbn; lia|exact G1]]].
     exists rest2. split.
     - destruct B2 as (B2a & B2b). split; [cbn in *; rewrite B2a, <- !app_assoc; reflexivity|].
@@ -280,7 +282,7 @@ Section Tokens.
     destruct (S1 eq_refl) as ((rest1 & B1 & O1 & _) & Len1 & D1 & G1).
     assert (HR1 : zlen body + 4 <= zlen rest1) by (destruct B1 as (_ & B1); lia).
     (* the opening quote *)
-    destruct (put_spec p1 T rest1 [ch_quote] 0 B1 ltac:(lia)) as (rest2 & p2 & E2 & P2 & B2).
+    destruct (put_spec p1 T rest1 [ch_quote] 0 B1 ltac:(lia)) as (rest2 & p2 & E2 & P2 & B2 & Fp2).
     { rewrite zlen_cons, zlen_nil. lia. }
     assert (HR2 : zlen rest2 = zlen rest1 - 1).
     { destruct B1 as (_ & B1). destruct B2 as (_ & B2). subst p2. cbn in B2. rewrite zlen_app, zlen_cons, zlen_nil in B2. lia. }
@@ -294,16 +296,17 @@ Section Tokens.
                               zlen T + zlen (ch_quote :: body ++ [ch_quote]) + 2 <= pb_length p' /\ grown p p') /\
                 (room p (zlen T + zlen (ch_quote :: body ++ [ch_quote]) + 2) -> ok = true)).
     { intros p3 rest3 B3 L3 O3 Ln3 D3 F3 G3.
-      destruct (put_spec p3 _ rest3 [ch_quote] (zlen body + 1) B3) as (rest4 & p4 & E4 & P4 & B4).
+      destruct (put_spec p3 _ rest3 [ch_quote] (zlen body + 1) B3) as (rest4 & p4 & E4 & P4 & B4 & Fp4).
       { rewrite !zlen_app, zlen_cons, zlen_nil. lia. } { rewrite zlen_cons, zlen_nil. lia. }
       rewrite E4. cbn [bind].
       assert (L4 : zlen rest4 = zlen rest3 - 1).
       { destruct B3 as (_ & B3). destruct B4 as (_ & B4). subst p4. cbn in B4. rewrite !zlen_app, !zlen_cons, !zlen_nil in *. lia. }
-      destruct (put_spec p4 _ rest4 [0] (zlen body + 2) B4) as (rest5 & p5 & E5 & P5 & B5).
+      destruct (put_spec p4 _ rest4 [0] (zlen body + 2) B4) as (rest5 & p5 & E5 & P5 & B5 & Fp5).
       { subst p4. cbn. rewrite !zlen_app, !zlen_cons, zlen_nil. lia. } { rewrite zlen_cons, zlen_nil. lia. }
       rewrite E5. cbn [bind].
       eexists true, p5. split; [reflexivity|].
-      assert (F5 : frame p p5) by (subst p5 p4; eapply frame_trans; [exact F1|exact F3]).
+      assert (F5 : frame p p5).
+      { eapply frame_trans; [exact F1|]. eapply frame_trans; [exact F3|]. eapply frame_trans; [exact Fp4|exact Fp5]. }
       split; [exact F5|]. split; [|reflexivity]. intros _.
       split; [|split; [subst p5 p4; cbn; congruence|split; [subst p5 p4; cbn; lia|]]].
       - exists rest5. destruct B5 as (B5a & B5b). split; [split|].
@@ -317,7 +320,7 @@ Section Tokens.
       rewrite E2. cbn [bind].
       replace (firstn (Z.to_nat (zlen body)) s) with body.
       2: { rewrite Hbody. symmetry. apply firstn_all2. unfold zlen. lia. }
-      destruct (put_spec p2 (T ++ [ch_quote]) rest2 body 1 B2) as (rest3 & p3 & E3 & P3 & B3).
+      destruct (put_spec p2 (T ++ [ch_quote]) rest2 body 1 B2) as (rest3 & p3 & E3 & P3 & B3 & Fp3).
       { rewrite zlen_app, zlen_cons, zlen_nil. lia. } { lia. }
       rewrite E3. cbn [bind].
       apply (Hfin p3 rest3 B3).
@@ -325,7 +328,7 @@ Section Tokens.
       + subst p3 p2. exact O1.
       + subst p3 p2. reflexivity.
       + subst p3 p2. reflexivity.
-      + subst p3 p2. repeat split.
+      + eapply frame_trans; [exact Fp2|exact Fp3].
       + subst p3 p2. split; [cbn; lia|]. intros _. repeat split.
     - (* the copy loop *)
       rewrite E2. cbn [bind].
@@ -340,7 +343,9 @@ Section Tokens.
       + cbn. exact O2.
       + subst p2. reflexivity.
       + subst p2. reflexivity.
-      + subst p2. repeat split.
+      + eapply frame_trans; [exact Fp2|].
+        split; [reflexivity|]. split; [reflexivity|]. split; [reflexivity|]. intros _.
+        split; [reflexivity|]. split; [reflexivity|]. unfold blen. cbn [pb_buf set_buf]. rewrite B2a, !zlen_app. lia.
       + subst p2. split; [cbn; lia|]. intros _. repeat split.
   Qed.
 End Tokens.
